@@ -25,6 +25,13 @@ From OV Require Import Base.Panic Base.Arith Model.Complex Model.Vector Model.Ve
 Import ListNotations.
 Local Open Scope nat_scope.
 
+(* [audit_separator]: the driver splits coqc's output at the lines "Closed under the global context" / "Axioms:";
+   after a theorem over R the axiom list would otherwise run on into the next Check's output ("name : type" is
+   read as an axiom name).  Printing the assumptions of a closed lemma right after each such theorem ends the
+   block where the axiom list ends.  It is not a property theorem. *)
+Lemma audit_separator : True.
+Proof. exact I. Qed.
+
 (* ---------------------------------------------------------------- histories *)
 Theorem vec_run_refines : forall (A : Arith) (sorter : list A -> list A),
   sorter_ok sorter -> forall (ops : list (vop A)) (v : list A), run_spec sorter v ops.
@@ -104,6 +111,17 @@ Example elementwise_spec_nonvacuous :
   vadd (A := AQ) [q 1 2; q 3 1] [q 2 1; q (-1) 3] = Ok [q 5 2; q 8 3] /\
   length [q 1 2; q 3 1] <> length [q 2 1] /\ vsub (A := AQ) [q 1 2; q 3 1] [q 2 1] = Panic Guard.
 Proof. repeat split; try reflexivity. discriminate. Qed.
+
+Theorem vdiv_spec : forall (F : SArith) (FL : FieldLaws F) (v : list F) (s : F),
+  (s <> zero -> vdiv v s = Ok (map (fun x => mul x (fl_inv F FL s)) v)) /\
+  (s = zero -> v <> [] -> vdiv v s = Panic DivZero) /\
+  (v = [] -> vdiv v s = Ok []).
+Proof. intros F FL v s. exact (vdiv_spec_lemma FL v s). Qed.
+Check vdiv_spec : forall (F : SArith) (FL : FieldLaws F) (v : list F) (s : F),
+  (s <> zero -> vdiv v s = Ok (map (fun x => mul x (fl_inv F FL s)) v)) /\
+  (s = zero -> v <> [] -> vdiv v s = Panic DivZero) /\
+  (v = [] -> vdiv v s = Ok []).
+Print Assumptions vdiv_spec.
 
 (* ---------------------------------------------------------------- range reductions *)
 Theorem sum_slice_spec : forall (A : Arith) (v : list A) s e,
@@ -195,6 +213,7 @@ Check linspace_monotone : forall (a b : R) n, (a < b)%R -> 2 <= n ->
   exists l, linspace (F := SAR) a b n = Ok l /\ length l = n /\
             forall i j, i < j < n -> (nth i l 0 < nth j l 0)%R.
 Print Assumptions linspace_monotone.
+Print Assumptions audit_separator.
 
 (* non-vacuity: the hypotheses hold at R (FieldLaws, OfNatLaws) and for concrete end points *)
 Example linspace_nonvacuous :
@@ -215,6 +234,7 @@ Check norm_nonneg : forall (v : list R),
   (0 <= norm_1 (A := AR) v)%R /\ (0 <= norm_2 (F := SAR) Rabs v)%R /\
   (forall m, norm_inf (F := SAR) Rabs v = Ok m -> (0 <= m)%R).
 Print Assumptions norm_nonneg.
+Print Assumptions audit_separator.
 
 Theorem norm_homogeneous : forall (v : list R) (c : R),
   norm_1 (A := AR) (vscale (A := AR) v c) = (Rabs c * norm_1 (A := AR) v)%R /\
@@ -230,6 +250,7 @@ Check norm_homogeneous : forall (v : list R) (c : R),
   (forall m, norm_inf (F := SAR) Rabs v = Ok m ->
              norm_inf (F := SAR) Rabs (vscale (A := AR) v c) = Ok (Rabs c * m)%R).
 Print Assumptions norm_homogeneous.
+Print Assumptions audit_separator.
 
 Theorem norm1_triangle : forall (u v s : list R), vadd (A := AR) u v = Ok s ->
   (norm_1 (A := AR) s <= norm_1 (A := AR) u + norm_1 (A := AR) v)%R.
@@ -237,6 +258,7 @@ Proof. intros u v s E. exact (norm1_triangle_lemma u v s E). Qed.
 Check norm1_triangle : forall (u v s : list R), vadd (A := AR) u v = Ok s ->
   (norm_1 (A := AR) s <= norm_1 (A := AR) u + norm_1 (A := AR) v)%R.
 Print Assumptions norm1_triangle.
+Print Assumptions audit_separator.
 
 Theorem norm2_triangle : forall (u v s : list R), vadd (A := AR) u v = Ok s ->
   (norm_2 (F := SAR) Rabs s <= norm_2 (F := SAR) Rabs u + norm_2 (F := SAR) Rabs v)%R.
@@ -244,6 +266,7 @@ Proof. intros u v s E. exact (norm2_triangle_lemma u v s E). Qed.
 Check norm2_triangle : forall (u v s : list R), vadd (A := AR) u v = Ok s ->
   (norm_2 (F := SAR) Rabs s <= norm_2 (F := SAR) Rabs u + norm_2 (F := SAR) Rabs v)%R.
 Print Assumptions norm2_triangle.
+Print Assumptions audit_separator.
 
 Theorem norm_inf_triangle : forall (u v s : list R) (a b : R), vadd (A := AR) u v = Ok s ->
   norm_inf (F := SAR) Rabs u = Ok a -> norm_inf (F := SAR) Rabs v = Ok b ->
@@ -253,6 +276,7 @@ Check norm_inf_triangle : forall (u v s : list R) (a b : R), vadd (A := AR) u v 
   norm_inf (F := SAR) Rabs u = Ok a -> norm_inf (F := SAR) Rabs v = Ok b ->
   exists m, norm_inf (F := SAR) Rabs s = Ok m /\ (m <= a + b)%R.
 Print Assumptions norm_inf_triangle.
+Print Assumptions audit_separator.
 
 Theorem norm_chain : forall (v : list R), v <> [] ->
   exists m, norm_inf (F := SAR) Rabs v = Ok m /\
@@ -262,6 +286,7 @@ Check norm_chain : forall (v : list R), v <> [] ->
   exists m, norm_inf (F := SAR) Rabs v = Ok m /\
             (m <= norm_2 (F := SAR) Rabs v)%R /\ (norm_2 (F := SAR) Rabs v <= norm_1 (A := AR) v)%R.
 Print Assumptions norm_chain.
+Print Assumptions audit_separator.
 
 (* non-vacuity of the triangle / chain hypotheses: a concrete sum of equal-length real vectors is defined and
    norm_inf of it is a value *)
